@@ -695,7 +695,7 @@ func c02GenSearch(t *rapid.T, cfg vq.GenConfig, tags []*c02Tag, hasConv bool) *c
 	if len(tags) >= 2 && rapid.IntRange(0, 5).Draw(t, "tagheavy") == 0 {
 		// several (negated) tag filters side by side: every undecided tag multiplies the conjunct when inlined
 		sp.expr = c02TagHeavyExpr(t, cfg, tags)
-		if q, err := query.Parse(sp.expr.Render()); err == nil && c02InlinedSize(q.Conditions, tags) > 150 {
+		if q, err := query.Parse(sp.expr.Render()); err == nil && c02InlinedSize(q.Conditions, tags) > 30 {
 			sp.expr = c02DrawSearchExpr(t, cfg, tags) // cost bound
 		}
 	} else {
